@@ -62,9 +62,9 @@ class Builder:
     def stack_value(self, ins):
         return self.w.call(self._gsv, ins)
 
-    def operand(self, instrs, consumer="assert"):
+    def operand(self, instrs, consumer="assert", teal=None):
         """the stack value consumed by `consumer` placed after `instrs` in one block (tealer's own reconstruction)"""
-        bb, objs = self.block(list(instrs) + [consumer])
+        bb, objs = self.block(list(instrs) + [consumer], teal=teal)
         sv = self.stack_value(objs[-1])
         args = self.w.getattr(sv, "args")
         return args[0], bb, objs
